@@ -13,7 +13,10 @@ sources embedded in its Go tests and mutated windows of both, validated by TLC).
 import copy, json, os, random, shutil
 from vlib import MachineryError
 
+MAX_LEX_LEN = 6000     # Lexer!MaxLexLen
 ALPHA14 = '{97, 101, 49, 46, 43, 32, 13, 10, 92, 34, 47, 35, 61, 195}'
+# quick model check at length 4: without '#', '='
+ALPHA12 = '{97, 101, 49, 46, 43, 32, 13, 10, 92, 34, 47, 195}'
 # thorough model check at length 5: without '#', '=', non-ASCII
 ALPHA11 = '{97, 101, 49, 46, 43, 32, 13, 10, 92, 34, 47}'
 # random byte strings: also x u (escapes), E - 9 0 tab ' & * NUL ( ) { } ; and more non-ASCII bytes
@@ -77,9 +80,9 @@ def corrupt_event(ev, rnd):
     return e
 
 
-def sample_cli(ctx, cases_file, out_file, n):
-    """Every case in which an un-read steps over a line end (up to 150), every case whose source ends in a
-    backslash (up to 100), and a seeded random sample of the rest."""
+def sample_cli(ctx, cases_file, out_file, n, nspecial):
+    """Cases in which an un-read steps over a line end (up to nspecial), cases whose source ends in a
+    backslash (up to nspecial/2), and a seeded random sample of n of the rest."""
     rnd = random.Random(ctx.seed * 7919 + 1)
     special, esc, rest = [], [], []
     seen = 0
@@ -89,12 +92,12 @@ def sample_cli(ctx, cases_file, out_file, n):
                 continue
             seen += 1
             if '"uc":"lf"' in line or '"uc":"cr"' in line:
-                if len(special) < 150:
+                if len(special) < nspecial:
                     special.append(line)
                 elif rnd.random() < 0.02:
-                    special[rnd.randrange(150)] = line
+                    special[rnd.randrange(nspecial)] = line
             elif '92],"rx"' in line:
-                if len(esc) < 100:
+                if len(esc) < nspecial // 2:
                     esc.append(line)
             elif len(rest) < n:
                 rest.append(line)
@@ -131,7 +134,7 @@ def run(ctx):
     os.environ['C03_GOAWK'] = goawk
 
     # ---- 1. the model: position bookkeeping stays in step, delivered positions are true ----
-    mc = ctx.cfg('MC_Lexer', constants={'MaxLen': 4, 'MaxLenFree': 3 if q else 4})
+    mc = ctx.cfg('MC_Lexer', constants={'MaxLen': 4, 'MaxLenFree': 3 if q else 4, 'Alpha': ALPHA12 if q else ALPHA14})
     ctx.tlc('MC_Lexer', mc, timeout=1500)
     if not q:
         mc5 = ctx.cfg('MC_Lexer', name='MC_Lexer_len5', constants={'MaxLen': 5, 'MaxLenFree': 2, 'Alpha': ALPHA11})
@@ -165,8 +168,8 @@ def run(ctx):
         ctx.tlc('Gen_Lexer', s2, capture='cases.ndjson', simulate=60000, depth=14, workers=1, timeout=1200)
     ctx.replay('cases.ndjson', label='lexer', prop='C03', corrupt=corrupt_lex, min_cases=20000)
     ctx.replay('cases.ndjson', label='parser', prop='C03PARSE', corrupt=corrupt_parse, min_cases=20000, count_traces=False)
-    ncli = sample_cli(ctx, 'cases.ndjson', 'cli_cases.ndjson', 500 if q else 6000)
-    ctx.replay('cli_cases.ndjson', label='cli', prop='C03CLI', corrupt=corrupt_cli, min_cases=min(ncli, 300), count_traces=False)
+    ncli = sample_cli(ctx, 'cases.ndjson', 'cli_cases.ndjson', 250 if q else 6000, 60 if q else 400)
+    ctx.replay('cli_cases.ndjson', label='cli', prop='C03CLI', corrupt=corrupt_cli, min_cases=min(ncli, 200), count_traces=False)
 
     # ---- 3. code -> spec ----
     ntr = 120 if q else 1500
@@ -187,8 +190,17 @@ def run(ctx):
         with open(os.path.join(ctx.specdir, 'srcs.ndjson'), 'w') as f:
             for r in judged:
                 srcev = [e for e in r['trace'] if e.get('ev') == 'src'][0]
-                big = len(srcev['src']) > 6000
-                f.write(json.dumps({'src': srcev['src'], 'rx': bool(srcev['rx']) and not big}) + '\n')
+                src, rx = srcev['src'], bool(srcev['rx'])
+                info = r['info'] or {}
+                if len(src) > MAX_LEX_LEN:
+                    exp = info.get('expected')
+                    if info.get('kind') in ('position', 'illegal-position') and isinstance(exp, dict):
+                        # any byte string is a source: examine the part of it that ends shortly after the token
+                        hi = min(len(src), exp['s'] + 64)
+                        src = src[max(0, hi - MAX_LEX_LEN):hi]
+                    else:
+                        rx = False      # parser only (no token prediction is exported for long sources)
+                f.write(json.dumps({'src': src, 'rx': rx}) + '\n')
         gr = ctx.cfg('Gen_Lexer', name='Gen_Lexer_rejects', constants={'Fams': '{"file"}'})
         ctx.tlc('Gen_Lexer', gr, capture='reject_cases.ndjson', timeout=1500, heap='10g')
         before = len(ctx.failures)
